@@ -175,8 +175,60 @@ fn raft_race_strategy() -> impl Strategy<Value = RaftCase> {
         })
 }
 
+/// Figure-8 family for the simulator: member `a` wins a term and accepts requests it never
+/// replicates (its heartbeat timer does not fire); member `b` wins the next term and accepts its
+/// own requests; then, in one un-quiesced burst, `b`'s heartbeat timer (replicating / committing
+/// with the third member) races `a`'s election timer; finally `a` gets another request and
+/// everybody's heartbeat timer is pumped. Which AppendEntries is still in flight when `a`
+/// campaigns is decided by the schedule (the decision tape).
+fn raft_figure8_strategy() -> impl Strategy<Value = RaftCase> {
+    (
+        0usize..6,
+        1usize..=2,
+        1usize..=2,
+        proptest::collection::vec(0u8..4, 4),
+        1usize..=3,
+        prop_oneof![
+            proptest::collection::vec(any::<u8>(), 0..128),
+            proptest::collection::vec(any::<u8>(), 128..2048),
+        ],
+    )
+        .prop_map(|(perm, ka, kb, order, rounds, tape)| {
+            let perms = [[0u8, 1, 2], [0, 2, 1], [1, 0, 2], [1, 2, 0], [2, 0, 1], [2, 1, 0]];
+            let [a, b, _c] = perms[perm];
+            let mut script = vec![Ev::Election(a), Ev::Barrier];
+            for _ in 0..ka {
+                script.push(Ev::Request(a));
+            }
+            script.push(Ev::Barrier);
+            script.push(Ev::Election(b));
+            script.push(Ev::Barrier);
+            for _ in 0..kb {
+                script.push(Ev::Request(b));
+            }
+            script.push(Ev::Barrier);
+            // the racy burst, in a generated order
+            let burst = [Ev::Heartbeat(b), Ev::Election(a), Ev::Heartbeat(b), Ev::Request(a)];
+            let mut idx: Vec<usize> = (0..4).collect();
+            idx.sort_by_key(|i| (order[*i], *i));
+            for i in idx {
+                script.push(burst[i]);
+            }
+            script.push(Ev::Barrier);
+            script.push(Ev::Request(a));
+            script.push(Ev::Barrier);
+            for _ in 0..rounds {
+                for m in 0..N as u8 {
+                    script.push(Ev::Heartbeat(m));
+                }
+                script.push(Ev::Barrier);
+            }
+            RaftCase { script, tape }
+        })
+}
+
 fn raft_strategy() -> impl Strategy<Value = RaftCase> {
-    prop_oneof![raft_random_strategy(), raft_race_strategy()]
+    prop_oneof![raft_random_strategy(), raft_race_strategy(), raft_figure8_strategy()]
 }
 
 fn raft_random_strategy() -> impl Strategy<Value = RaftCase> {
@@ -417,6 +469,12 @@ fn check_acceptor(c: &AccCase, r: &AccRun) -> Result<(), Fail> {
 pub fn run(ctx: &mut Ctx) {
     let tier = ctx.tier();
     ctx.assume("paxos_core / paxos_with_client cannot be compiled by the simulator at this commit (todo!: 'Reduce with optional intermediates is not yet supported in simulator'; elections are driven by wall-clock timers): only index_payloads and acceptor_p2 are exercised");
+    // second raft driver: raft_step over harness-owned per-link FIFO queues (cheap, needs no
+    // simulator compile, runs first)
+    crate::raftstep::run(ctx);
+    if crate::util::violated(ctx) {
+        return;
+    }
     let t0 = std::time::Instant::now();
     // probe: does the simulator accept paxos_core at all? (recorded in the evidence)
     let paxos_probe = {
